@@ -278,15 +278,15 @@ PROPS['C04'] = dict(
 )
 
 PROPS['C05'] = dict(
-    id='C05', modules=['CollectionModel.Props.C05', 'CollectionModel.Tie.Facts'], key=q_key, nontrivial=lambda l: True, rule=Q_RULE + "; plus the three constructor entry points (MakeFromArray, MakeFromSequence, a parsed Queue literal) for every N in 0..4*capacity+1 under a watchdog",
+    id='C05', modules=['CollectionModel.Props.C05', 'CollectionModel.Props.C05Term', 'CollectionModel.Tie.Facts'], key=q_key, nontrivial=lambda l: True, rule=Q_RULE + "; plus the three constructor entry points (MakeFromArray, MakeFromSequence, a parsed Queue literal) for every N in 0..4*capacity+1 under a watchdog",
     timeout=dict(quick=900, thorough=6000),
     exhaustive_subspaces="constructors: every N in 0..65 through all three entry points; schedules as C04",
-    level_text="Lean 4 theorems (any number of threads, every reachable state): C05_recv_enabled_iff / C05_send_enabled_iff (a blocked call can proceed exactly when the queue's state permits), C05_no_mutual_block (a consumer blocked on empty and a producer blocked on full never coexist), C05_recv_after_send / C05_recv_after_close / C05_send_after_recv (the step that changes the state enables the blocked call: no lost wake-up), C05_ctor_returns (constructing from N values never blocks once capacity >= N, for every N). Negative: C05_counterexample_removeall_breaks_accounting. Termination of every well-formed producer/consumer/closer program is established by exploration of all schedules of the small programs (DFS by replay on the real code), NOT by a Lean proof for all thread counts.",
-    level_note="PARTIAL: real wake-ups belong to the Go runtime (textbook channel assumed); program termination by finite exploration only; stranding on a replaced channel after RemoveAll is a recorded finding that withheld scheduling cannot exhibit directly (its visible symptom here: a closed queue re-opened by RemoveAll blocks consumers for ever).",
+    level_text="Lean 4 theorems (any number of threads, every reachable state): C05_recv_enabled_iff / C05_send_enabled_iff (a blocked call can proceed exactly when the queue's state permits), C05_no_mutual_block (a consumer blocked on empty and a producer blocked on full never coexist), C05_recv_after_send / C05_recv_after_close / C05_send_after_recv (the step that changes the state enables the blocked call: no lost wake-up), C05_ctor_returns (constructing from N values never blocks once capacity >= N, for every N). Negative: C05_counterexample_removeall_breaks_accounting. Program level (Props/C05Term.lean), for any capacity >= 1, any producers with any value lists, any number >= 1 of consumers and a closer, under EVERY schedule: C05_step_decreases (every step of every goroutine strictly decreases a measure), C05_run_bounded (no run is longer than the initial measure: no infinite schedule), C05_no_deadlock (in every reachable state either every goroutine has finished or some goroutine can step: no lost wake-up at program level), C05_final_consumed (then the queue is empty, holds no token, and popped = appended in order), C05_program_terminates (the three together from a program's initial state), C05_steps_are_queue_steps (every program step is one or two events of the queue transition system, so the program model adds nothing to the protocol).",
+    level_note="PARTIAL: real wake-ups belong to the Go runtime (textbook channel assumed: a receive parked on an empty channel proceeds when a token is sent or the channel is closed; the model's 'enabled' is the channel's own condition); stranding on a replaced channel after RemoveAll is a recorded finding that withheld scheduling cannot exhibit directly (its visible symptom here: a closed queue re-opened by RemoveAll blocks consumers for ever).",
 )
 
 PROPS['C06'] = dict(
-    id='C06', modules=['CollectionModel.Props.C06'],
+    id='C06', modules=['CollectionModel.Props.C06', 'CollectionModel.Props.C06Split'], stress='C06stress',
     key=lambda l: (l.get('k'), l.get('op'), len(l.get('input', [])), l.get('fan'), l.get('cap'), l.get('status'), l.get('mode'), l.get('steps'), l.get('elem')),
     nontrivial=lambda l: l.get('k') == 'pipe', timeout=dict(quick=900, thorough=6000),
     rule="cases = one run of {feeder, library helper goroutine(s), one reader per output} for Fork, Split or Split+Join on the real "
@@ -296,8 +296,8 @@ PROPS['C06'] = dict(
          "judged: termination, wait group back to zero, every reader saw closure, nothing after closure, exact per-output sequences; "
          "distinct = distinct (operation, length, fan-out, capacity, status, mode, number of steps)",
     exhaustive_subspaces="programs whose schedule DFS finished within the budget (count in the qmeta line)",
-    level_text="Lean 4 theorems for Fork over a network of atomic bounded FIFO queues (the abstraction C04 justifies: one writer, one reader per queue), for EVERY input stream, fan-out, capacity and interleaving of feeder, helper and readers: C06_fork_prefix_inv (read_k ++ buffered_k ++ in-flight_k ++ input queue ++ unfed = input for every output k, in every reachable state: nothing lost, duplicated, reordered, invented), C06_fork_final (after completion every reader has read exactly the input), C06_fork_no_late (nothing is sent to an output after its closure). Split (round robin, splitSpec) and Split+Join (identity) are specified and checked on the real code over enumerated schedules, NOT proved; termination and the wait group are established by the exploration only.",
-    level_note="PARTIAL: Split/Join and termination by exploration only. The helper goroutine's iterator loop is modelled as a counter over the outputs. Real goroutine scheduling and the wait group are Go runtime facts observed by the harness.",
+    level_text="Lean 4 theorems over networks of atomic bounded FIFO queues (the abstraction C04 justifies: one writer, one reader per queue), for EVERY input stream, fan-out n >= 1, capacity and interleaving of feeder, helper goroutine(s) and readers. Fork: C06_fork_prefix_inv (read_k ++ buffered_k ++ in-flight_k ++ input queue ++ unfed = input for every output k, in every reachable state), C06_fork_final, C06_fork_no_late. Split: C06_split_inv (output k has received exactly the values at positions = k mod n of what was distributed so far, in order; distributed ++ in-flight ++ queued ++ unfed = input; the iterator position is |distributed| mod n), C06_split_final (reader k ends with splitSpec n k input: every value to exactly one output, round robin), C06_split_no_late. Split followed by Join: C06_splitjoin_inv, C06_splitjoin_final (the reader of the joined queue ends with exactly the input, in order), C06_join_stops_only_when_empty (when Join stops at the first closed and drained input no other input holds a value and Split has distributed everything: nothing is lost), C06_join_no_late. Termination and the wait group are established by exploration of the real code only.",
+    level_note="PARTIAL: termination / wait-group release by exploration (controlled scheduler, DFS by replay) and free-running runs, not by proof. The helper goroutines' iterator loops are modelled as an explicit turn counter. Real goroutine scheduling and the wait group are Go runtime facts observed by the harness.",
 )
 
 PROPS['C20'] = dict(
